@@ -48,3 +48,50 @@ PROPS["C18"] = dict(
               "threads as sequences of atomic steps under an arbitrary scheduler"],
     assumptions=["ids are unbounded naturals", "each AtomicUsize RMW is atomic"],
 )
+
+PROPS["C08"] = dict(
+    technique="Coq proof of deadlock-freedom of the request/answer mailbox for any number of callers "
+              "and every interleaving (16-clause inductive invariant), and of termination/exactness of "
+              "the dependency DFS on every graph incl. cycles; protocol roles and DFS discipline read "
+              "off the current source by rs2v and checked by computation; liveness correspondence runs "
+              "under a watchdog and in child processes",
+    level_text="Theorems (Props/C08.v, closed under the global context): the printed Answers::notify / "
+               "wait_for_answer / HotReloader::reload / reloader Ptr arm have the producer/consumer/"
+               "caller shapes; for that protocol no reachable state with an unfinished caller is "
+               "deadlocked, for every N and schedule; a caller is released only by its own, unique "
+               "token; the dependency sort terminates with recursion depth <= |nodes|+1 on every "
+               "graph (cyclic look-ups included) and lists each reachable node once; the printed "
+               "DepsGraph::visit marks before recursing.  Partial: the bounded-work measure of the "
+               "mailbox and the bridge from the relational protocol model to the executable one are "
+               "not proved; OS scheduling, condvar and channel behaviour are modelled, not verified.",
+    level_note="Trusted: Coq kernel+VM, rs2v printer, Rust/Script.v action classification, mutual exclusion "
+               "of Mutex, Condvar wakes every waiter on notify_all and has no lost wake-ups, FIFO of "
+               "crossbeam channels; callers hold no AssetReadGuard (documented precondition of hot_reload).",
+    gen=["HotReloading", "Deps"],
+    model_files=["Rust/Ast.v", "Rust/Syntax.v", "Rust/Script.v", "Ref/Answers.v"],
+    model_targets=["Ref/Answers.vo", "Rust/Script.vo"],
+    proof_files=["Proofs/AnsInv.v", "Proofs/AnsR.v", "Proofs/AnsC.v", "Proofs/Dfs.v", "Witness/OldD1.v",
+                 "Tie/Answers.v", "Tie/Graph.v", "Props/C08.v"],
+    proof_targets=["Props/C08.vo", "Witness/OldD1.vo"],
+    props_module="Props.C08",
+    theorems=["C08_code_has_the_protocol_shapes", "C08_no_deadlock", "C08_released_by_own_token",
+              "C08_sort_terminates", "C08_sort_exact_and_duplicate_free",
+              "C08_code_marks_before_recursing", "C08_old_visit_diverges"],
+    engines=[("answers", ["--parts", "shapes,conc"])],
+    thorough_features=[["parking_lot"]],
+    disagreement_is_violation=True,
+    rule="answers: (B) every digraph of get_cached look-ups on <=2 (quick) / <=3 (thorough) TNode assets "
+         "incl. self-loops and cycles, plus random larger shapes mixing acyclic load edges, each run in a "
+         "child process through load, per-node edits, batched events and hot_reload (abort/hang of the "
+         "child = failure); (A) 1..16 threads calling hot_reload concurrently with loader threads and "
+         "event bursts under a 4 s no-progress watchdog.  Non-trivial = shape with at least one edge, "
+         "or a concurrent configuration; distinct = distinct shape/configuration.",
+    trusted_base=["Mutex/Condvar semantics (mutual exclusion; notify_all wakes all current waiters; no "
+                  "reliance on spurious wake-ups), FIFO crossbeam channel: modelled",
+                  "watchdog threshold 4 s without progress = stall"],
+    modelled=["threads as program counters over the mailbox actions; the reloader's update between "
+              "receiving Ptr(t) and answering is one step (its termination is theorem 4)",
+              "the graph as a function node -> dependents over nat-coded nodes"],
+    assumptions=["callers do not hold an AssetReadGuard while calling hot_reload",
+                 "the events channel stays connected while the cache lives"],
+)
